@@ -802,6 +802,8 @@ func c20SeqHistory(c *Ctx, r *Rng, hno int) {
 		return
 	}
 	first := map[uint64]c20Spec{}
+	scratchD := make(tally.DurationBuckets, 0, 32)
+	scratchV := make(tally.ValueBuckets, 0, 32)
 	steps := r.Range(4, 28)
 	for i := 0; i < steps; i++ {
 		s := pool[r.Intn(len(pool))]
@@ -831,6 +833,19 @@ func c20SeqHistory(c *Ctx, r *Rng, hno int) {
 		name := fmt.Sprintf("h%d_%d", hno, i)
 		sc := c20Scope(root, r.Intn(8))
 		b := s.buckets()
+		if !useNil && len(s.bits) <= 32 && r.Chance(35) {
+			// the caller builds its specifications in one scratch slice that it reuses from creation to creation
+			// (the histogram must keep the bounds it was CREATED with, whatever the caller does to its slice later)
+			switch x := b.(type) {
+			case tally.DurationBuckets:
+				scratchD = append(scratchD[:0], x...)
+				b = scratchD
+			case tally.ValueBuckets:
+				scratchV = append(scratchV[:0], x...)
+				b = scratchV
+			}
+			c.Cov.Hit("create.seq.caller-reuses-one-slice")
+		}
 		rc.log.Take()
 		var h tally.Histogram
 		p, v := catch(func() {
